@@ -293,6 +293,22 @@ def check_symbolic(cx, rep):
             ok = got.equals(want)
             rep.ob('form', inst, ok, 'evaluate ≡ k + v·(Σ_{j=1..4} cⱼxʲ + u·R̂(x)·x⁵), x = −ln v' if ok else 'difference ' + nf.show(got - want)[:300],
                    fn=inst, file=file, line=line, msg='evaluate is not k + v·(Σ cⱼxʲ + u·R̂(x)·x⁵) with x = −ln v: difference ' + nf.show(got - want)[:300])
+            # the identity above is over the reals, where u·(… + c₄/u) is c₄: a quotient by something that is zero for a finite
+            # form (u = 0, a zero coefficient) is 0·∞ = NaN in floating point. No divisor may depend on the form's own numbers.
+            fields = {sym('self.k'), sym('self.u')} | {sym('self.coeffs[%d]' % j) for j in range(4)}
+            bad_div = []
+            for s_ in subterms(t2):
+                den = None
+                if isinstance(s_, tuple) and s_ and s_[0] == 'f/':
+                    den = s_[2]
+                elif isinstance(s_, tuple) and len(s_) == 3 and s_[0] == 'fcall' and s_[1] == 'recip':
+                    den = s_[2]
+                if den is not None and (set(subterms(den)) & fields):
+                    bad_div.append(den)
+            rep.ob('form', inst + ':divisors', not bad_div, 'no quotient by k, c₁..c₄ or u',
+                   fn=inst, file=file, line=line, key='C10:form:%s:divisors' % inst,
+                   msg='evaluate divides by %s, which is zero for finite forms (e.g. u = 0): the result is NaN there although the stated value is finite'
+                       % (term_str(bad_div[0])[:120] if bad_div else ''))
             # value at v = 1: L = 0 ⇒ every term carries a factor x = 0 and R̂(0) is the finite series value
             lid = [aid for args, aid in nf.fn_atoms.get('ln', [])]
             at1 = got.subst({lid[0]: RF.const(0), nf.table.get(v): RF.const(1)}) if lid else got
